@@ -212,6 +212,10 @@ def write_ini(path, items):
             f.write('\n')
 
 
+class _Driven(Exception):
+    pass
+
+
 def build_argv(items):
     out = []
     for sec, key, kind, flag, val in items:
@@ -295,7 +299,7 @@ def run(case, st):
     try:
         paths = []
         for li, items in enumerate(case['files']):
-            p = os.path.join(tmp, 'conf%d.ini' % li)
+            p = os.path.join(tmp, '%s-conf%d.ini' % ('zma'[li % 3], li))      # (the order given is not the alphabetical order)
             write_ini(p, items)
             paths.append(p)
             for sec, key, kind, txt, val, form in items:
@@ -308,6 +312,10 @@ def run(case, st):
             # two orders of the same public calls: the one of plasTeX.client.main (parser built and command line parsed
             # before the files are read) and the one of the unit tests (files first)
             order = 'client' if common.case_hash(case)[1] % 3 else 'files-first'
+            if order == 'client' and common.case_hash(case)[3] % 3 == 0 and not any(f.startswith('-c') for f in argv):
+                # the command-line program itself: plasTeX.client.main with -c for every file, up to the point where it hands the
+                # configuration to the converter
+                order = 'main'
             st.feature('call-order', order)
             # a third of the cases read every option back between the layers (a program may look at its configuration at any time;
             # what it sees later must still be the current values)
@@ -329,6 +337,20 @@ def run(case, st):
                     except Exception:
                         pass
                 st.counters['intermediate_read_backs'] += 1
+            if order == 'main':
+                import contextlib, io
+                import plasTeX.client as PC
+                got = []
+                real_run = PC.run
+                PC.run = lambda filename, config: got.append(config)
+                try:
+                    with contextlib.redirect_stdout(io.StringIO()):
+                        PC.main(['zq.tex'] + [x for p_ in paths for x in ('-c', p_)] + argv)
+                finally:
+                    PC.run = real_run
+                cfg = got[0]
+                st.counters['driven_through_client_main'] += 1
+                raise _Driven()
             if peek:
                 peek_all()
             if order == 'files-first' and paths:
@@ -341,6 +363,8 @@ def run(case, st):
             if peek:
                 peek_all()
             cfg.updateFromDict(data)
+        except _Driven:
+            pass
         except common.CaseTimeout:
             raise
         except BaseException as e:
